@@ -64,17 +64,22 @@ def with_cancels(tree, budget=1):
     if budget and kids:
         for i in range(len(kids)):
             yield (op, kids[: i + 1] + ("X",) + kids[i + 1:])
+        # 'Y' inside a child: when that child runs it cancels its next sibling (scheduled after it by the same parent,
+        # typically waiting in the same batch of due items)
+        for i in range(len(kids) - 1):
+            c_op, c_kids = kids[i]
+            yield (op, kids[:i] + ((c_op, c_kids + ("Y",)),) + kids[i + 1:])
 
 
 def tname(t):
-    if t == "X":
-        return "X"
+    if t in ("X", "Y"):
+        return t
     op, kids = t
     return op + ("(" + ",".join(tname(k) for k in kids) + ")" if kids else "")
 
 
 def size(t):
-    return 0 if t == "X" else 1 + sum(size(k) for k in t[1])
+    return 0 if t in ("X", "Y") else 1 + sum(size(k) for k in t[1])
 
 
 class H:
@@ -107,7 +112,7 @@ class H:
                 sch = st["mk"]()
                 counter = [0]
 
-                def schedule(on, node, path):
+                def schedule(on, node, path, sibs=None, my=0):
                     op, kids = node
                     nid = f"t{ti}:{path}"
                     rec = {"nid": nid, "op": op, "delay": DELAY[op], "clock": run.clock, "idx": len(run.events), "cancelled": None, "t": ti}
@@ -123,14 +128,23 @@ class H:
                         run.log("start", nid)
                         last = None
                         ci = 0
+                        mine = []
                         for k in kids:
                             if k == "X":
                                 if last is not None:
                                     last[1].dispose()
                                     last[0]["cancelled"] = {"idx": len(run.events), "clock": run.clock}
                                     run.log("cancel", last[0]["nid"])
+                            elif k == "Y":
+                                if sibs is not None and my + 1 < len(sibs):
+                                    nxt = sibs[my + 1]
+                                    nxt[1].dispose()
+                                    if nxt[0]["cancelled"] is None:
+                                        nxt[0]["cancelled"] = {"idx": len(run.events), "clock": run.clock}
+                                    run.log("cancel-sibling", nxt[0]["nid"])
                             else:
-                                last = schedule(s, k, f"{path}.{ci}")
+                                last = schedule(s, k, f"{path}.{ci}", mine, ci)
+                                mine.append(last)
                                 ci += 1
                         ilv.point("in-action", voluntary=True)
                         run.log("end", nid)
@@ -174,24 +188,30 @@ class H:
                     continue
                 clock = max(clock, due)
                 order.append((nid, clock))
-                op, kids = node
+                op, kids = node[0], node[1]
+                sibflags, my = node[2], node[3]
                 last = None
                 ci = 0
+                mine = []
                 for k in kids:
                     if k == "X":
                         if last is not None:
                             last[0] = True
+                    elif k == "Y":
+                        if sibflags is not None and my + 1 < len(sibflags):
+                            sibflags[my + 1][0] = True
                     else:
                         flag = [False]
                         seq[0] += 1
-                        heapq.heappush(q, (clock + DELAY[k[0]], seq[0], f"{nid}.{ci}", k, flag))
+                        heapq.heappush(q, (clock + DELAY[k[0]], seq[0], f"{nid}.{ci}", (k[0], k[1], mine, ci), flag))
+                        mine.append(flag)
                         last = flag
                         ci += 1
 
         for ri, root in enumerate(roots):
             q = []
             seq[0] += 1
-            heapq.heappush(q, (clock + DELAY[root[0]], seq[0], f"t0:{ri}", root, [False]))
+            heapq.heappush(q, (clock + DELAY[root[0]], seq[0], f"t0:{ri}", (root[0], root[1], None, 0), [False]))
             drain(q)
         return order
 
@@ -265,7 +285,7 @@ def harnesses(tier):
             if tier == "quick" and size(a) + size(b) > 3:
                 continue
             hs.append(H(kind, ((a, b),), False))
-    small = [t for t in singles if size(t) <= 2 and "X" not in t[1]]
+    small = [t for t in singles if size(t) <= 2 and "X" not in t[1] and not any(k not in ("X", "Y") and "Y" in k[1] for k in t[1])]
     pairs = list(itertools.combinations_with_replacement(small if tier == "thorough" else [t for t in small if t[0] in ("S", "R1")], 2))
     for a, b in pairs:
         if tier == "quick" and size(a) + size(b) > 3:
